@@ -36,7 +36,7 @@ fn main() {
     let mut repos: Vec<(String, Repo)> = vec![];
     for (name, dates, tags, head, wt) in [
         ("r_before", vec![midnight - 7200, midnight - 3600, midnight - 1], vec![Tag { name: "v1.2.3".into(), target: 1, annotated: false }], Head::Branch("main".into()), WorkTree::Clean),
-        ("r_after", vec![midnight - 2, midnight - 1, midnight], vec![Tag { name: "v1.2.3".into(), target: 2, annotated: true }, Tag { name: "v1.0.0".into(), target: 0, annotated: false }], Head::Branch("main".into()), WorkTree::Clean),
+        ("r_after", vec![midnight - 2, midnight - 1, midnight], vec![Tag { name: "v1.2.3".into(), target: 2, annotated: true }, Tag { name: "v1.2.0".into(), target: 2, annotated: false }, Tag { name: "v1.2.1-rc.1".into(), target: 2, annotated: false }, Tag { name: "v1.0.0".into(), target: 0, annotated: false }], Head::Branch("main".into()), WorkTree::Clean),
         ("r_dirty", vec![midnight - 2, midnight - 1, midnight + 1], vec![Tag { name: "1.0.0rc1".into(), target: 0, annotated: false }], Head::Branch("feature/x".into()), WorkTree::Untracked),
         // detached HEAD: git reports this state through (translatable) messages on some code paths
         ("r_detached", vec![midnight - 7200, midnight - 3600, midnight - 1], vec![Tag { name: "v1.2.3".into(), target: 0, annotated: false }], Head::Detached(1), WorkTree::Clean),
@@ -154,6 +154,47 @@ fn main() {
             s2.add("process_runs", 4); s2.inc("cwd_equivalence_cases");
             if rel != abs || rel2 != abs || incwd != abs { ctx.violation("stdout_depends_on_cwd", format!("{sub} on {name}"), json!({"kind":"cwd","repo":name}), format!("abs {:?} rel {:?} rel2 {:?} cwd {:?}", abs.stdout_str(), rel.stdout_str(), rel2.stdout_str(), incwd.stdout_str())); }
         }
+    }
+    // the user's git configuration (~/.gitconfig, here via GIT_CONFIG_GLOBAL) is part of the environment: settings that only
+    // change how git *presents* its answers (columns, colours, sorting, pagers, status decorations, log formats, encodings,
+    // abbreviation, advice) must not change what zerv reports. Settings that change repository semantics (excludesFile,
+    // showUntrackedFiles, fileMode, autocrlf, ignoreCase, worktree) are deliberately not in this alphabet.
+    {
+        let settings: &[(&str, &str, &str)] = &[("status", "branch", "true"), ("status", "short", "true"), ("status", "showStash", "true"), ("status", "relativePaths", "false"), ("status", "aheadBehind", "true"),
+            ("status", "renames", "copies"), ("status", "displayCommentPrefix", "true"), ("status", "submoduleSummary", "true"), ("color", "ui", "always"), ("color", "status", "always"), ("color", "branch", "always"),
+            ("color", "pager", "true"), ("column", "ui", "always"), ("column", "tag", "always"), ("column", "branch", "always"), ("column", "status", "always"), ("column", "ui", "always,dense,nodense"),
+            ("tag", "sort", "-version:refname"), ("tag", "sort", "creatordate"), ("tag", "sort", "-taggerdate"), ("branch", "sort", "-committerdate"), ("versionsort", "suffix", "-rc"), ("log", "decorate", "full"),
+            ("log", "showSignature", "true"), ("log", "date", "iso"), ("log", "date", "relative"), ("log", "abbrevCommit", "true"), ("log", "follow", "true"), ("log", "mailmap", "false"), ("log", "showRoot", "false"),
+            ("format", "pretty", "fuller"), ("format", "pretty", "oneline"), ("format", "pretty", "format:%s"), ("core", "abbrev", "4"), ("core", "abbrev", "40"), ("core", "pager", "cat"), ("core", "pager", "false"),
+            ("pager", "tag", "true"), ("pager", "branch", "true"), ("pager", "status", "true"), ("pager", "log", "true"), ("pager", "show", "true"), ("core", "quotePath", "false"), ("advice", "statusHints", "true"),
+            ("advice", "detachedHead", "true"), ("i18n", "logOutputEncoding", "latin1"), ("i18n", "commitEncoding", "latin1"), ("core", "commentChar", "%"), ("diff", "renames", "copies"), ("diff", "mnemonicPrefix", "true"),
+            ("user", "name", "zz"), ("init", "defaultBranch", "trunk"), ("core", "precomposeUnicode", "true"), ("core", "logAllRefUpdates", "always"), ("merge", "ff", "only"), ("rerere", "enabled", "true"), ("gc", "auto", "0"),
+            ("help", "autoCorrect", "1"), ("core", "editor", "false"), ("core", "whitespace", "trailing-space"), ("tag", "gpgSign", "true"), ("commit", "gpgSign", "true"), ("gpg", "program", "false"), ("feature", "manyFiles", "true"),
+            ("index", "version", "4"), ("core", "untrackedCache", "true"), ("rev-list", "unknownKey", "1"), ("alias", "tag", "!false"), ("alias", "status", "!echo dirty"), ("alias", "rev-list", "log"), ("core", "warnAmbiguousRefs", "false")];
+        let cfgdir = root.join("gitconfigs");
+        let _ = std::fs::create_dir_all(&cfgdir);
+        let mut files: Vec<(String, PathBuf)> = vec![];
+        let mut all = String::new();
+        for (i, (sec, key, val)) in settings.iter().enumerate() {
+            let text = format!("[{sec}]\n\t{key} = {val}\n");
+            let f = cfgdir.join(format!("c{i}"));
+            std::fs::write(&f, &text).unwrap_or_else(|e| machinery_error(&format!("gitconfig: {e}")));
+            files.push((format!("{sec}.{key}={val}"), f));
+            if !(*sec == "alias") { all += &text; }
+        }
+        let fall = cfgdir.join("all"); std::fs::write(&fall, &all).unwrap(); files.push(("all presentation settings together".into(), fall));
+        let cfg_jobs: Vec<(String, Vec<String>)> = repos.iter().flat_map(|(name, r)| { let dir = r.dir.to_string_lossy().to_string(); vec![(name.clone(), a(&["version", "-C", &dir, "--output-format", "zerv"])), (name.clone(), a(&["flow", "-C", &dir]))] }).collect();
+        let st_cfg = cfg_jobs.par_iter().map(|(name, args)| {
+            let mut st = Stats::default();
+            let reference = zv::run_bin(args, None, &[], Some(Path::new("/")));
+            for (label, f) in &files {
+                st.inc("process_runs"); st.inc("git_config_cases");
+                let o = zv::run_bin(args, None, &[("GIT_CONFIG_GLOBAL", f.to_str().unwrap())], Some(Path::new("/")));
+                if o.stdout != reference.stdout || o.status != reference.status { ctx.violation("stdout_depends_on_user_git_config", format!("{} on {name} [{label}]", args[0]), json!({"kind":"gitconfig","setting":label,"repo":name,"args":args}), format!("isolated: exit {} {:?}; with the setting: exit {} {:?} {:?}", reference.status, truncate(&reference.stdout_str(), 100), o.status, truncate(&o.stdout_str(), 100), truncate(&o.stderr_str(), 100))); }
+            }
+            st
+        }).reduce(Stats::default, Stats::merge);
+        s2 = s2.merge(st_cfg);
     }
     // start directory that no longer exists (getcwd fails): with an absolute -C the result must not change
     {
